@@ -1,0 +1,19 @@
+//go:build verif
+
+package freelist
+
+// Machine-checked contracts for this package (comment-only; read by the gsv
+// verification-condition generator under /verif). Guarded by the build tag
+// `verif`, so no ordinary build ever sees this file.
+
+// Layer A: the freelist as a multiset of block codes, fl.$F[b] = number of
+// times block code b has been recorded.
+
+//@ type FreeList
+//@   ghost field $F (Array Int Int)
+
+//@ func (cp *FreeList) Put(blk types.Block) (err error)
+//@   abstract gap GAP-3: pool+file contents implement the ghost multiset
+//@   abstract modifies cp.$F
+//@   abstract ensures cp.$F == old(cp.$F)[keyof(blk) := old(cp.$F)[keyof(blk)] + 1]
+//@   abstract ensures err == nil
